@@ -1,6 +1,7 @@
 """Lemmas on the transducer extracted from icao.significant_cloud (C01-R6, C02-R1)."""
 from __future__ import annotations
 
+from sa import terms as T
 from sa.fold import explore
 from sa.props.c17 import extract
 
@@ -41,3 +42,29 @@ def never_suppressed(ctx, rule='C02-R1'):
             return (True, True), f'the lowest layer of 5 oktas or more (okta {sym}, the ceiling) is not flagged'
         return (seen1 or sym >= 1, seen5 or sym >= 5), None
     _run(ctx, rule, (False, False), step, 'lowest cloud layer and ceiling are always flagged')
+
+
+def only_metarize_writes_flags(ctx, rule='C17-R4'):
+    """The `significant` column of the three tables is written by metarize() and by nothing else in the package: a
+    consumer that gets the table through the chunk's property gets the chunk's own frame, so a store through it
+    (plot code re-flagging layers above the MSA) rewrites the published flags."""
+    from sa.rules.common import effects
+    fx = effects(ctx)
+    p = ctx.project
+    n = 0
+    for q, e in fx.all_events():
+        if e.kind not in ('store', 'aug') or e.target is None:
+            continue
+        cols = {x[2] for x in T.walk(e.target) if T.tag(x) == 'col'} | {x[3] for x in T.walk(e.target) if T.tag(x) == 'cell'} | \
+               {c for x in T.walk(e.target) if T.tag(x) == 'cols' for c in x[2]}
+        if 'significant' not in cols:
+            continue
+        n += 1
+        f = p.funcs[q]
+        own = f.cls is not None and f.cls.qname.endswith('.CeiloChunk') and f.name in ('metarize', '_setup_sligrolay_pdf') \
+            or f.module.name == 'ampycloud.data' and f.name.startswith('_') and f.cls is not None
+        ctx.check(own, rule, q, e.node, e.loc(),
+                  f"{q} writes the 'significant' column ({T.show(e.target, maxlen=100)}): the flags published in the tables are "
+                  'those metarize() computed with significant_cloud(); anything else that writes them changes the answer '
+                  'after the fact', instance=f"'significant' written by metarize only ({q.split('.')[-1]})")
+    ctx.floor(rule, "stores to a 'significant' column in the package", n, 1)
